@@ -749,7 +749,19 @@ def expr_str(f, i, depth=0):
         return "nullptr"
     if k in ("bin", "asg"):
         a = n["a"]
-        return "%s %s %s" % (E(a[0]), n["op"], E(a[1]))
+        op = n["op"]
+        if k == "bin" and op in ("==", "!=", "<", ">", "<=", ">="):
+            # canonical operand order for comparisons: a literal operand is printed on the right (`0 == x` reads `x == 0`), so
+            # that facts are matched independently of the spelling
+            def lit(i):
+                x = f.nodes.get(i)
+                while x is not None and x["k"] == "cast":
+                    x = f.nodes.get(x["a"][0])
+                return x is not None and x["k"] in ("int", "chr", "str", "null", "bool", "flt")
+            if lit(a[0]) and not lit(a[1]):
+                flip = {"==": "==", "!=": "!=", "<": ">", ">": "<", "<=": ">=", ">=": "<="}
+                return "%s %s %s" % (E(a[1]), flip[op], E(a[0]))
+        return "%s %s %s" % (E(a[0]), op, E(a[1]))
     if k == "un":
         if n.get("post"):
             return "%s%s" % (E(n["a"][0]), n["op"])
